@@ -60,7 +60,13 @@ pub mod option_rangeproof_hex {
 		Option::<String>::deserialize(deserializer).and_then(|res| match res {
 			Some(string) => from_hex(&string)
 				.map_err(|err| Error::custom(err.to_string()))
-				.and_then(|val| Ok(Some(RangeProof::deserialize(val.into_deserializer())?))),
+				.and_then(|val| {
+					// RangeProof's deserializer indexes a fixed-size buffer
+					if val.len() > crate::grin_util::secp::constants::MAX_PROOF_SIZE {
+						return Err(Error::custom("range proof too long"));
+					}
+					Ok(Some(RangeProof::deserialize(val.into_deserializer())?))
+				}),
 			None => Ok(None),
 		})
 	}
